@@ -305,6 +305,53 @@ Proof.
   intros HK HF i. rewrite !known_compose, (HK i), (Forgotten_ext _ _ i HF). tauto.
 Qed.
 
+(* ---------- ImportDB.__or__ agrees with loading the files together ---------- *)
+Lemma from_data_known kn m c fg i :
+  In i (known (from_data kn m c fg)) <-> In i kn /\ ~ Forgotten (fun j => In j fg) i.
+Proof.
+  unfold from_data; simpl. rewrite set_without_In, dedup_imps_In.
+  rewrite (Forgotten_ext (fun j => In j (dedup_imps fg)) (fun j => In j fg)); [tauto|].
+  intros j. apply dedup_imps_In.
+Qed.
+
+Lemma from_data_mandatory kn m c fg i :
+  In i (mandatory (from_data kn m c fg)) <-> In i m /\ ~ Forgotten (fun j => In j fg) i.
+Proof.
+  unfold from_data; simpl. rewrite set_without_In, dedup_imps_In.
+  rewrite (Forgotten_ext (fun j => In j (dedup_imps fg)) (fun j => In j fg)); [tauto|].
+  intros j. apply dedup_imps_In.
+Qed.
+
+Lemma Forgotten_mono (F G : imp -> Prop) i : (forall j, F j -> G j) -> Forgotten F i -> Forgotten G i.
+Proof.
+  intros H [A|[j [mj [mi [B D]]]]]; [left; auto|]. right. exists j, mj, mi. split; auto.
+Qed.
+
+Lemma In_union_app {A} (g : dbfile -> list A) a b x :
+  In_union g (a ++ b) x <-> In_union g a x \/ In_union g b x.
+Proof.
+  unfold In_union. split.
+  - intros [f [I H]]. apply in_app_or in I as [I|I]; [left|right]; exists f; auto.
+  - intros [[f [I H]]|[f [I H]]]; exists f; split; auto; apply in_or_app; auto.
+Qed.
+
+Theorem or_is_compose_app a b i :
+  (In i (known (db_or (compose a) (compose b))) <-> In i (known (compose (a ++ b)))) /\
+  (In i (mandatory (db_or (compose a) (compose b))) <-> In i (mandatory (compose (a ++ b)))) /\
+  (In i (forget (db_or (compose a) (compose b))) <-> In i (forget (compose (a ++ b)))).
+Proof.
+  assert (HF : forall j, In j (forget (compose a) ++ forget (compose b)) <-> In_union f_forget (a ++ b) j).
+  { intros j. rewrite in_app_iff, !forget_compose, In_union_app. tauto. }
+  assert (M1 : Forgotten (In_union f_forget a) i -> Forgotten (In_union f_forget (a ++ b)) i).
+  { apply Forgotten_mono. intros j H. apply In_union_app. auto. }
+  assert (M2 : Forgotten (In_union f_forget b) i -> Forgotten (In_union f_forget (a ++ b)) i).
+  { apply Forgotten_mono. intros j H. apply In_union_app. auto. }
+  unfold db_or. split; [|split].
+  - rewrite from_data_known, in_app_iff, !known_compose, In_union_app, (Forgotten_ext _ _ i HF). tauto.
+  - rewrite from_data_mandatory, in_app_iff, !mandatory_compose, In_union_app, (Forgotten_ext _ _ i HF). tauto.
+  - rewrite forget_compose. unfold from_data; simpl. rewrite dedup_imps_In. apply HF.
+Qed.
+
 (* ---------- the lookup index ---------- *)
 Definition Cand (d : db) (k : str) (i : imp) : Prop :=
   (In i (known d) /\ import_as i = k) \/
